@@ -10,7 +10,8 @@ EXTENDS Naturals, Sequences, FiniteSets, TLC, Json, SequencesExt
 CONSTANT MaxCases
 
 Bodies   == {"empty", "cmd", "cmdbreak", "breakcmd", "break", "ifbreak"}
-Contexts == {"alone", "first", "last", "inwhile", "indowhile", "inswitch", "inif", "thenswitch"}
+Contexts == {"alone", "first", "last", "inwhile", "indowhile", "inswitch", "inif", "thenswitch",
+             "twice", "nestedsame"}          \* two switches of the same shape in one script
 
 Lists(n) == {cs \in [1..n -> [isdef : BOOLEAN, body : Bodies]] :
                 Cardinality({i \in 1..n : cs[i].isdef}) <= 1}
